@@ -2186,13 +2186,17 @@ class Node(_protocols.NodeProtocol, _display.PrettyPrintable):
         # very often. This way all mutations can be tracked.
         # If necessary, we can cache the inputs and outputs as tuples.
         self._inputs: tuple[Value | None, ...] = tuple(inputs)
-        # Values belong to their defining nodes. The values list is immutable
-        self._outputs: tuple[Value, ...] = self._create_outputs(num_outputs, outputs)
+        # _graph is set by graph.append
+        self._graph: Graph | None = None
+        # The attributes are checked before any output value is claimed, so that a rejected
+        # call does not leave a value that names this (unfinished) node as its producer
         if isinstance(attributes, Mapping):
             attributes = tuple(attributes.values())
         self._attributes: _graph_containers.Attributes = _graph_containers.Attributes(
             attributes, owner=self
         )
+        # Values belong to their defining nodes. The values list is immutable
+        self._outputs: tuple[Value, ...] = self._create_outputs(num_outputs, outputs)
         self._overload: str = overload
         # TODO(justinchuby): Potentially support a version range
         self._version: int | None = version
@@ -2200,12 +2204,18 @@ class Node(_protocols.NodeProtocol, _display.PrettyPrintable):
         self._metadata_props: dict[str, str] | None = metadata_props
         self.device_configurations: tuple[NodeDeviceConfiguration, ...] = device_configurations
         self.doc_string = doc_string
-        # _graph is set by graph.append
-        self._graph: Graph | None = None
         # Add the node to the graph if graph is specified. All fields must be set before
         # this point because graph.append() may inspect the node (e.g. repr() in a journal)
         if graph is not None:
-            graph.append(self)
+            try:
+                graph.append(self)
+            except BaseException:
+                # The node is not returned to the caller: give the supplied outputs back
+                if outputs is not None:
+                    for output in self._outputs:
+                        output._producer = None  # pylint: disable=protected-access
+                        output._index = None  # pylint: disable=protected-access
+                raise
 
         # Add the node as a use of the inputs
         for i, input_value in enumerate(self._inputs):
